@@ -45,9 +45,8 @@ def witnessFS : FS := fun p =>
 
 def witnessFile : EnvFile := ⟨['a', '.', 'e', 'n', 'v', '/', 'x'], false, []⟩
 
-theorem witness_missing : Missing witnessFS witnessFile.path ∧ witnessFile.required = false := by
-  unfold Missing
-  decide
+theorem witness_missing : Missing witnessFS witnessFile.path ∧ witnessFile.required = false :=
+  ⟨Or.inr rfl, rfl⟩
 
 theorem witness_failed_pre : loadEnvFilesPre [] witnessFS [witnessFile] [] = .error .read := by
   decide
